@@ -409,6 +409,11 @@ func (c *Checker) CheckSource(sourceName string, source string) (compiler.Compil
 		c.localEnvs = localEnvsCopy
 		c.constantScopes = constantScopesCopy
 		c.methodScopes = methodScopesCopy
+		// a failed check can leave a nested (namespace definition, ivar index) compiler active;
+		// go back to the top level compiler, otherwise the next input loses the locals defined so far
+		for c.compiler != nil && c.compiler.Parent() != nil {
+			c.compiler = c.compiler.Parent()
+		}
 	}
 
 	if compiler == nil {
